@@ -49,16 +49,16 @@ CLAIMED = {
         "BER codec and USM are abstracted at this level (C05/C06/C09 cover them); dict() modelled as insertion-ordered association list",
     ),
     "C05": (
-        "proof: the independent specification reader (strict definite-length BER, RFC message grammar) reads back exactly the "
+        "proof (partial): the independent specification reader (strict definite-length BER, RFC message grammar) reads back exactly the "
         "request record from what the x690 mirror writes: lengths, every integer, OIDs of the stated domain with unbounded later "
         "arcs, every SET value kind, PDU framing, community messages (whole datagram, nothing else), SNMPv3 header / USM "
         "parameters / msgData and the scoped PDU; each operation builds that record (PDU tags from generated facts); tied by "
         "BYTE-EXACT comparison of every datagram at the sender seam with the model's emit, plus the independent Python decoder",
-        "domain: OIDs with >= 2 arcs, arc0 <= 2, arc1 < 40 (x690 packs the first two arcs into one octet); datagrams < 256^126 "
+        "partial: OIDs with >= 2 arcs, arc0 <= 2, arc1 < 40; for 2.x with x >= 40 the statement is proved false (x690 packs the first two arcs into one octet) and recorded as a known finding of the dependency; datagrams < 256^126 "
         "octets; digest octets and ciphertext are taken from the wire (C10, C11)",
     ),
     "C06": (
-        "proof: a value TLV of any SNMP base/application type or exception marker, written in ANY admissible definite "
+        "proof (partial): a value TLV of any SNMP base/application type or exception marker, written in ANY admissible definite "
         "length form (minimal, long form with 1..126 octets, non-minimal) anywhere in a datagram, is found by the index-based "
         "x690 mirror with exactly its content, dispatched to the registered class (generated registry, signedness included) and "
         "decoded to the value the specification reader reads from the same octets; whole nested structures (binding lists, "
@@ -67,8 +67,10 @@ CLAIMED = {
         "unsigned classes never negative; integer / OID codec round trips for all integers and all OIDs of the domain; "
         "re-encoded TLVs read as the same content. The mirror is tied to x690 / puresnmp by tree correspondence on all five "
         "structures and by re-encoding checks against the independent reader",
-        "domain: OID content starting with an octet < 120; unsigned application integers in proper non-negative encoding for "
-        "equality with the RFC value; the theorems are about the Lean mirror of x690 (function by function), the tie is the correspondence",
+        "partial: OID content starting with an octet < 120 — outside it (arc0 = 2, arc1 >= 40) the statement is proved false "
+        "(x690 splits the first sub-identifier with // 40, % 40) and recorded as a known finding of the dependency; unsigned "
+        "application integers in proper non-negative encoding for equality with the RFC value; the theorems are about the Lean "
+        "mirror of x690 (function by function), the tie is the correspondence",
     ),
     "C07": (
         "proof: id in the request = id validated for every operation and clock value; accepted => ids equal; mismatch => "
